@@ -139,6 +139,7 @@ def run_inproc(argv, world_json=None, trace=None, plan=None, cwd=None,
             os.environ[k] = str(v)
     vtrace.reset()
     vworld_rt.forget_worlds()
+    vworld_rt.EXEC_COUNT.clear()
     try:
         import ztr_monitor
         ztr_monitor.reset_run_state()
